@@ -8,7 +8,7 @@ import logging
 from harness import ashlib, fullstack
 from harness.ashlib import hx
 
-FAILS = ["error", "rstack_poweron", "silent", "lost_exc", "eof", "close"]
+FAILS = ["error", "rstack_poweron", "silent", "chatty", "lost_exc", "eof", "close"]
 POINTS = ["idle", "inflight", "awaiting", "queued", "resetting", "abandoned"]
 
 
@@ -104,11 +104,21 @@ def scenario(n, fail, point, attached, batched, second=None, history=None):
                 cbs = pre + [(w.protocol.data_received, ashlib.spec_wire("E", code=0x51))]
             elif fail == "rstack_poweron":
                 cbs = pre + [(w.protocol.data_received, ashlib.spec_wire("K", code=0x02))]
-            elif fail == "silent":
+            elif fail in ("silent", "chatty"):
                 w.ncp.silent = True
                 cbs = []
                 if point == "idle":
                     tasks.append(loop.create_task(call("c1", w.ezsp.getEui64())))
+                if fail == "chatty":
+                    # the NCP no longer takes anything in (nothing is acknowledged any more) but keeps talking: a callback every
+                    # 0.3 s, each an in-sequence DATA frame with a stale acknowledgement number
+                    def chatter(k=0):
+                        if k < 400 and not w.closed:
+                            w.ncp.callback("stackStatusHandler", status=0x90)
+                            w.pump()
+                            loop.call_later(0.3, chatter, k + 1)
+
+                    loop.call_later(0.3, chatter)
             elif fail == "lost_exc":
                 cbs = pre + [(w.protocol.connection_lost, ConnectionResetError("unplugged"))]
             elif fail == "eof":
@@ -121,10 +131,10 @@ def scenario(n, fail, point, attached, batched, second=None, history=None):
             await asyncio.sleep(0.01)
             # ---- let everything that was in progress end
             for _ in range(200):
-                if all(t.done() for t in tasks) and (fail != "silent" or not w.ezsp.is_ezsp_running or not attached):
+                if all(t.done() for t in tasks) and (fail not in ("silent", "chatty") or not w.ezsp.is_ezsp_running or not attached):
                     break
                 await asyncio.sleep(1.0)
-            if fail == "silent" and w.ezsp.is_ezsp_running and point != "abandoned":
+            if fail in ("silent", "chatty") and w.ezsp.is_ezsp_running and point != "abandoned":
                 # silence is only noticed when something is sent: the next command (e.g. the watchdog's) finds out
                 t = loop.create_task(call("probe", w.ezsp.nop()))
                 tasks.append(t)
@@ -183,7 +193,7 @@ def oracle(fail, point, attached, o, second=None):
         if reqs:
             return f"a deliberate close produced {reqs} controller-reset request(s)"
         return None
-    if fail == "silent" and point == "resetting":
+    if fail in ("silent", "chatty") and point == "resetting":
         # the application's own reset() call is what fails here (TimeoutError); nothing else is in progress
         r = o["results"].get("reset")
         if r is None or r[0] == "ok":
@@ -220,7 +230,7 @@ def cases(ctx):
             for point in POINTS:
                 for attached in (True, False):
                     for batched in (False, True):
-                        if batched and fail in ("silent", "close"):
+                        if batched and fail in ("silent", "chatty", "close"):
                             continue
                         cs.append((n, fail, point, attached, batched))
     # the same failures after an earlier life of the EZSP object (callbacks registered and removed, a scan with its own temporary
@@ -238,7 +248,7 @@ def cases(ctx):
     return cs
 
 
-EVENT_OF = {"error": "fail81", "rstack_poweron": "fail2", "silent": "fail81", "lost_exc": "lost", "eof": "lost"}
+EVENT_OF = {"error": "fail81", "rstack_poweron": "fail2", "silent": "fail81", "chatty": "fail81", "lost_exc": "lost", "eof": "lost"}
 
 
 def run(ctx):
@@ -280,14 +290,14 @@ def run(ctx):
             m_after = "EzspError" if "RAISED" in last else "sent"
             i_after = "EzspError" if o["after"][0] == "EzspError" else "sent"
             # without an application attached the silent link still fails commands at the ASH layer
-            if fail == "silent" and point == "resetting":
+            if fail in ("silent", "chatty") and point == "resetting":
                 continue
-            if mreq != len(o["requests"]) or (m_after != i_after and not (m_after == "sent" and fail in ("silent", "lost_exc", "eof", "error") and not attached)):
+            if mreq != len(o["requests"]) or (m_after != i_after and not (m_after == "sent" and fail in ("silent", "chatty", "lost_exc", "eof", "error") and not attached)):
                 ctx.corr_diff(f"EZSP failure reaction differs ({fail} at {point})", {"case": list(map(str, c))},
                               f"requests={len(o['requests'])} after={o['after']} running={o['running_after']}", model[i])
         if i % 25 == 0:
             ctx.sample({"case": list(map(str, c)), "requests": len(o["requests"]), "results": {k: [v[0], round(v[1], 3)] for k, v in o.get("results", {}).items()}, "after": o.get("after")})
-    ctx.cov["rule"] = ("failure kinds {ERROR frame, power-on RSTACK, NCP stops acknowledging, connection lost with error, EOF, deliberate close} x workload points {idle, request unacknowledged, "
+    ctx.cov["rule"] = ("failure kinds {ERROR frame, power-on RSTACK, NCP stops acknowledging, NCP stops acknowledging but keeps sending callbacks every 0.3 s, connection lost with error, EOF, deliberate close} x workload points {idle, request unacknowledged, "
                        "acknowledged but unanswered, three commands queued, reset in progress, request unacknowledged and abandoned by its caller after 4 s (no later probe)} x {application attached, not attached} x {failure alone, batched with an ACK in one loop iteration}, "
                        "NCP version 8 (4, 7, 8, 13, 14 thorough); plus: a first failure {ERROR, power-on RSTACK, silence} while no application is attached, then an application attaches and the NCP fails again "
                        "{ERROR, power-on RSTACK, EOF}: that failure must be reported; full real stack on the virtual clock")
